@@ -362,12 +362,11 @@ namespace sqf::parser::config
                     }
                     if (is_match<'.'>(iter))
                     {
-                        is_good = true;
                         ++iter;
                         // match second part of number
                         auto res = len_match<'0', '1', '2', '3', '4', '5', '6', '7', '8', '9'>(iter);
                         if (res == 0) { --iter; }
-                        else { iter += res; }
+                        else { iter += res; is_good = true; } // a sign and a lone dot are no number
                     }
                     if (is_match<'e', 'E'>(iter))
                     {
